@@ -173,16 +173,23 @@ def run_replay(scratch, test_filter, values, timeout=1800):
   return {"failed": failed, "void": void, "rc": rc, "output": out[-5000:], "cmd": "VK_REPLAY='%s' %s" % (env["VK_REPLAY"], " ".join(cmd))}
 
 
-def run_witness_test(scratch, test_file, timeout=1800):
+def run_witness_test(scratch, test_file, timeout=1800, append_to=None, test_filter=None):
   """an integration test (public API only) kept under /verif/witness: copied into core/tests of the scratch copy and run with the
-  repo toolchain.  Returns dict(failed, void, output, cmd)."""
+  repo toolchain.  A witness that needs crate-private items (append_to=<source file>) is a `#[cfg(test)] mod` appended to that file
+  of the scratch copy (add-only) and run with `cargo test --lib <filter>`.  Returns dict(failed, void, output, cmd)."""
   name = os.path.splitext(os.path.basename(test_file))[0]
-  shutil.copy(test_file, os.path.join(scratch.dir, "core", "tests", name + ".rs"))
+  if append_to:
+    with open(os.path.join(scratch.dir, append_to), "a") as fh:
+      fh.write("\n" + open(test_file).read())
+  else:
+    shutil.copy(test_file, os.path.join(scratch.dir, "core", "tests", name + ".rs"))
   env = dict(os.environ)
   env["CARGO_NET_OFFLINE"] = "true"
   env["CARGO_TARGET_DIR"] = os.path.join(CACHE, "replay-target")
   env["RUST_BACKTRACE"] = "0"
   cmd = ["cargo", "test", "--offline", "-p", "rzmq", "--test", name, "--", "--test-threads", "1"]
+  if append_to:
+    cmd = ["cargo", "test", "--offline", "-p", "rzmq", "--lib", test_filter or name, "--", "--test-threads", "1"]
   lk = _lock()
   try:
     try:
@@ -197,4 +204,4 @@ def run_witness_test(scratch, test_file, timeout=1800):
   void = nran == 0
   failed = (rc != 0) and not void and ("test result: FAILED" in out or "panicked at" in out)
   keep = [ln for ln in out.split("\n") if not re.match(r"\s*(warning|-->|\||=|\d+ \|)", ln) and ln.strip()]
-  return {"failed": failed, "void": void, "rc": rc, "output": "\n".join(keep)[-4000:], "cmd": "cp %s core/tests/ && %s" % (test_file, " ".join(cmd))}
+  return {"failed": failed, "void": void, "rc": rc, "output": "\n".join(keep)[-4000:], "cmd": ("cat %s >> %s && %s" % (test_file, append_to, " ".join(cmd))) if append_to else ("cp %s core/tests/ && %s" % (test_file, " ".join(cmd)))}
